@@ -131,9 +131,9 @@ fn c07(tier: &str, seed: u64, replay: Option<Value>) -> Rep {
     }
     let thorough = tier == "thorough";
     let sets: Vec<(Vec<char>, usize)> = if thorough {
-        vec![(vec!['a', 'b', 'A', 'B', '1', '_'], 7), (vec!['a', 'A', '1', '_'], 9), (vec!['a', 'Z', '9', 'é', 'É', '_'], 5)]
+        vec![(vec!['a', 'b', 'A', 'B', '1', '_'], 7), (vec!['a', 'A', '1', '_'], 9), (vec!['a', 'Z', '9', 'é', 'É', '_'], 5), (vec!['r', 'R', 'x', '2', '_'], 6)]
     } else {
-        vec![(vec!['a', 'b', 'A', 'B', '1', '_'], 6), (vec!['a', 'A', '1', '_'], 8), (vec!['a', 'Z', '9', 'é', 'É', '_'], 4)]
+        vec![(vec!['a', 'b', 'A', 'B', '1', '_'], 6), (vec!['a', 'A', '1', '_'], 8), (vec!['a', 'Z', '9', 'é', 'É', '_'], 4), (vec!['r', 'R', 'x', '2', '_'], 5)]
     };
     let mut idents: Vec<String> = Vec::new();
     for (alpha, n) in &sets {
@@ -145,8 +145,9 @@ fn c07(tier: &str, seed: u64, replay: Option<Value>) -> Rep {
     idents.dedup();
     // generated identifiers over a wider alphabet (proptest-seeded)
     let mut rg = Rg::from_seed(vmodel::derive_seed(seed, "c07-idents", 0, 0));
-    let wide: Vec<char> = "abcxyzABCXYZ0189_éÉñÑ日".chars().collect();
-    let nrand = if thorough { 200_000 } else { 20_000 };
+    // every ASCII letter and digit (a special-cased letter must not escape), plus a few non-ASCII
+    let wide: Vec<char> = "abcdefghijklmnopqrstuvwxyzABCDEFGHIJKLMNOPQRSTUVWXYZ0123456789__éÉñÑ日".chars().collect();
+    let nrand = if thorough { 400_000 } else { 60_000 };
     let mut extra = BTreeSet::new();
     for _ in 0..nrand {
         let len = rg.range(1, 14);
